@@ -238,6 +238,37 @@ func C06(c *core.Ctx) {
 			})
 		}
 	}
+	// portfolio weights: sibling commodities whose weight series are mathematically identical (decimals such
+	// as 0.1 / 0.3 / 0.7 that are not exact in binary), several commodities folded into one node, many digits
+	for k := 0; k < c.Pick(3, 12); k++ {
+		k := k
+		for v, extra := range [][]string{{}, {"--digits", "14"}, {"--universe", "u.yaml", "-m", "1", "--digits", "14"}, {"--csv"}} {
+			extra := extra
+			add("weights", fmt.Sprintf("weights with identical series %d/%d", k, v), func(dir string) []string {
+				r := rand.New(rand.NewSource(c.Seed*7919 + int64(k)))
+				names := []string{"AAA", "BBB", "CCC", "DDD", "EEE", "FFF"}
+				var b strings.Builder
+				b.WriteString("2020-01-01 open Assets:Depot\n2020-01-01 open Equity:Equity\n\n")
+				for _, n := range names {
+					fmt.Fprintf(&b, "2020-01-01 price %s 1 CHF\n", n)
+				}
+				amts := []string{"0.1", "0.2", "0.3", "0.7", "0.6", "1.1", "0.9"}
+				for m := 0; m < 3+k%3; m++ {
+					fmt.Fprintf(&b, "\n2020-%02d-28 \"buy\"\n", 1+m)
+					twin := amts[r.Intn(len(amts))] // AAA and BBB always get the same amount
+					fmt.Fprintf(&b, "Equity:Equity Assets:Depot %s AAA\nEquity:Equity Assets:Depot %s BBB\n", twin, twin)
+					for _, n := range names[2:] {
+						if r.Intn(2) == 0 {
+							fmt.Fprintf(&b, "Equity:Equity Assets:Depot %s %s\n", amts[r.Intn(len(amts))], n)
+						}
+					}
+				}
+				os.WriteFile(filepath.Join(dir, "w.knut"), []byte(b.String()), 0o644)
+				os.WriteFile(filepath.Join(dir, "u.yaml"), []byte("Stocks:Tech:\n  - AAA\n  - BBB\n  - CCC\nStocks:\n  - DDD\nBonds:\n  - EEE\n  - FFF\n"), 0o644)
+				return append(append([]string{"portfolio", "weights", "-v", "CHF", "--months", "--color=false"}, extra...), "w.knut")
+			})
+		}
+	}
 	// infer with tied candidates
 	for k := 0; k < c.Pick(6, 40); k++ {
 		k := k
